@@ -5,7 +5,7 @@ import (
 	"verifharness/internal/report"
 )
 
-const corsRule = "one case = a route table (routing generator: literals, {v}, {v:re}, tail wildcard; both routers; OPTIONS routes), one CrossOriginResourceSharing value (0–3 allowed domains incl. `.*` and odd entries, predicate none/some, cookies, MaxAge ≤0/>0, expose/allowed header lists incl. `*`, configured or computed methods) and a HISTORY of 1–6 requests through that one filter value (origins: entries in any case, proper prefixes/suffixes/superstrings, ports, null, empty, absent; OPTIONS ± Access-Control-Request-Method; requested header lists in any case/spacing/count incl. empty elements). Every request also goes to a twin container without the filter and the two recorders are compared in full. evaluations = requests; distinct = distinct (filter, table, request) with an Origin header"
+const corsRule = "one case = a route table (routing generator: literals, {v}, {v:re}, tail wildcard; both routers; OPTIONS routes), one CrossOriginResourceSharing value (0–3 allowed domains incl. `.*` and odd entries, predicate none/some, cookies, MaxAge ≤0/>0, expose/allowed header lists incl. `*`, configured or computed methods) and a HISTORY of 1–6 requests through that one filter value (origins: entries in any case, proper prefixes/suffixes/superstrings, ports, null, empty, absent; OPTIONS ± Access-Control-Request-Method; requested header lists in any case/spacing/count incl. empty elements). In a third of the histories on a filter with computed methods (a tenth of the others) the route table of a REGISTERED WebService changes between two requests — ws.Route after Container.Add, or ws.RemoveRoute with dynamic routes, mostly of a route whose method is routed at the URL — and the request behind the change mostly repeats an earlier request or its URL (preflight, route change, the same preflight again); model and predicates answer every request from the table in force when it is sent (Cors.corsSeqT, C09_no_memory_tables). Every request also goes to a twin container without the filter and the two recorders are compared in full. evaluations = requests; distinct = distinct (filter, table, request) with an Origin header"
 
 func corsCheck(p cors.Prop) checkFn {
 	return func(run *report.Run) error {
